@@ -24,7 +24,7 @@ CHAR = {
     "C01": [r"^rebuild$"], "C02": [r"^mk"], "C03": [r"^mk"],
     "C04": [r"^bin:(UNION|INTERSECTION|DIFFERENCE|CROSS)$", r"^un:COMPLEMENT$"],
     "C05": [r"^bin:(PLUS|MINUS|MULTIPLY|DIVIDE|MODULO|MAXIMUM|MINIMUM|DIST_MIN|EQUAL|NOT_EQUAL|LESS|GREATER)", r"^un:", r"^range:"],
-    "C06": [r"^release$", r"^drain$", r"^masscopy$"], "C07": [r"^bin$"],
+    "C06": [r"^release$", r"^drain$", r"^masscopy$", r"^ctr_"], "C07": [r"^bin$", r"^ctr_"],
     "C08": [r"^REACH_"], "C09": [r"IMAGE", r"_MULTIPLY$"], "C10": [r"^copy:"],
     "C11": [r"^iter", r"^card_ok$", r"^counts$"], "C12": [r"^bin$"],
     "C13": [r"^reorder:"], "C14": [r"^io:"], "C15": [r"^index:convert$"],
@@ -80,6 +80,13 @@ def replay(path):
             t = l.split(None, 1)
             if len(t) == 2: kv[t[0]] = t[1].strip()
         cmd = [BIN, "mm", "--one", kv["runseed"], "--faults", kv["faults"]]
+        if kv.get("thorough") == "1": cmd.append("--thorough")
+    elif path.endswith(".ctr"):
+        kv = {}
+        for l in open(path):
+            t = l.split(None, 1)
+            if len(t) == 2 and not l.startswith("#"): kv[t[0]] = t[1].strip()
+        cmd = [BIN, "ctr", "--prop", kv["prop"], "--one", kv["runseed"], "--ops", kv["ops"], "--skip", kv.get("skip", "-1")]
         if kv.get("thorough") == "1": cmd.append("--thorough")
     else:
         cmd = [BIN, "replay", path]
@@ -148,6 +155,28 @@ def main():
         elif not done and not any("worker %d " % w in b for b in broken):
             broken.append("worker %d (supervisor process) ended early, rc=%s: %s" % (w, p.returncode, err[-300:]))
     restarts = 0
+    ctr_runs = 0
+    if prop in ("C06", "C07"):
+        # second simulation for the same property: the width-adapting counter arrays
+        # behind incoming counts (C06) and cache counts (C07), driven stand-alone (sim/ctr.cc)
+        cmd = [BIN, "ctr", "--prop", prop, "--seed", str(seed), "--count", "12000" if tier == "thorough" else "800",
+               "--maxsecs", "240" if tier == "thorough" else "40", "--replays", "replays"]
+        if tier == "thorough": cmd.append("--thorough")
+        p = subprocess.run(cmd, stdout=subprocess.PIPE, stderr=subprocess.PIPE, text=True, env=env)
+        done = False
+        for line in p.stdout.splitlines():
+            if not line.startswith("{"): continue
+            try: j = json.loads(line)
+            except Exception: continue
+            if "begin" in j: continue
+            if j.get("done"): done = True; continue
+            if j.get("nondeterministic"):
+                broken.append("counter-array run %s did not fail the same way twice" % j.get("run")); continue
+            ctr_runs += 1
+            if j.get("ok", True): results.append(j)
+            else: failures.append(j)
+        if not done:
+            broken.append("counter-array simulation ended early, rc=%s: %s" % (p.returncode, p.stderr[-300:]))
 
     # ---- gate and classify
     known = [k for k in load_known()]
@@ -206,7 +235,8 @@ def main():
             "evaluations": len(okruns),
             "distinct_nontrivial": distinct,
             "rule": "one evaluation = one simulated run (seeded plan of API steps under a seeded fault schedule, all monitors after every step); "
-                    "counted as non-trivial when the run executed at least one step characteristic of this property (%s) and distinct by its final event-log hash" % ", ".join(CHAR.get(prop, ["."])),
+                    "counted as non-trivial when the run executed at least one step characteristic of this property (%s) and distinct by its final event-log hash" % ", ".join(CHAR.get(prop, ["."]))
+                    + ("; counter_array_runs of the evaluations are runs of the stand-alone counter-array simulation (sim/ctr.cc: seeded increments, decrements, swaps and resizes of the real counter_array against a vector model), distinct by the hash of their size/width sequence" if prop in ("C06", "C07") else ""),
             "samples": samples or [{"note": "no run completed"}],
             "simulated_steps": steps,
             "distinct_abstract_states": len(astates),
@@ -222,6 +252,7 @@ def main():
             "function_evaluations": sum(r.get("evals", 0) for r in okruns),
             "nodes_audited": sum(r.get("nodes_audited", 0) for r in okruns),
             "workers": WORKERS,
+            "counter_array_runs": ctr_runs,
             "failing_runs": len(failures),
             "isolation": "every run, every gate re-run and every minimisation candidate executes in its own forked process",
             "real_code": "all of /repo/src compiled from the working tree with -DMEDDLY_VERIF (ASan+UBSan subset)",
